@@ -112,6 +112,9 @@ CURATED = {
     "two-writers-one-source": [S(), C(0), W(4, 1), U(1, deps=[2]), D(2, 3), C(4)],
     "dependent-source-chain": [S(), W(2, 0), D(1), W(4, 2), D(3), C(4)],
     "stored-then-dependent-source": [S(), C(0), W(3, 1), D(2), C(3, 1)],
+    # a dependent source whose Barrier keeps its own node (m predecessors x n successors with m*n > m+n)
+    "barrier-hub-3x2": [S(), W(4, 0), U(0), U(0), D(1, 2, 3), C(4), U(deps=[4])],
+    "barrier-hub-2x3": [S(), W(3, 0), U(0), D(1, 2), C(3), U(deps=[3]), U(deps=[3])],
     "literal-arg-with-dependency": [S(), C(0), L(1), C(2)],
     "literal-dep-with-dependency": [S(), C(0), L(1), C(deps=[2])],
     "literal-hub": [S(), C(0), U(0), L(1, 2), C(3), U(deps=[3])],
